@@ -620,3 +620,36 @@ mod tests {
         assert_eq!(bus.output_ff(), 0xFF);
     }
 }
+
+/// Verification hook: the private registers of the [`Bus`].
+#[cfg(feature = "verif-hooks")]
+#[derive(Debug, Clone, PartialEq, Eq)]
+pub struct VerifBusState {
+    pub micr: u8,
+    pub misr: u8,
+    pub ucr: u8,
+    pub usr: u8,
+    pub uart_send: u8,
+    pub uart_recv: u8,
+    pub timer_enabled: bool,
+    pub timer_div: [usize; 3],
+    pub input_reg: [u8; 4],
+}
+
+#[cfg(feature = "verif-hooks")]
+impl Bus {
+    /// Verification hook: read the private registers.
+    pub fn verif_state(&self) -> VerifBusState {
+        VerifBusState {
+            micr: self.micr.bits(),
+            misr: self.misr.bits(),
+            ucr: self.ucr.bits(),
+            usr: self.usr.bits(),
+            uart_send: self.uart_send,
+            uart_recv: self.uart_recv,
+            timer_enabled: self.int_timer.enabled,
+            timer_div: [self.int_timer.div1, self.int_timer.div2, self.int_timer.div3],
+            input_reg: self.input_reg,
+        }
+    }
+}
